@@ -292,18 +292,19 @@ with de_payload (var : variant) (y : tomlval) {struct var} : result sval :=   (*
 
 (* ==== toml::Value as a Deserializer (Value::try_into, Table::try_into) ========================================
    deserialize_any: Array / Table are visited through SeqDeserializer / MapDeserializer and what the
-   visitor leaves unread is an error; Datetime is visit_string(to_string()); map keys are deserialized
-   from Value::String(key); deserialize_struct forwards to deserialize_any (no tunnels). *)
+   visitor leaves unread is an error; Datetime is visit_map(DatetimeDeserializer) — toml_datetime's private
+   struct, as in toml_edit (repair of C13-tryinto-datetime-string; before: visit_string(to_string())); map keys
+   are deserialized from Value::String(key); deserialize_struct forwards to deserialize_any (no tunnels). *)
 Definition all_read {X} (r : result (list sval * list X)) : result (list sval) :=
   rbind r (fun p => match snd p with [] => Ok (fst p) | _ => Err EDe end).
 
 Definition tv_de_datetime (x : tomlval) : result datetime :=
   match x with
+  | VDatetime d => de_dt_str (display_datetime d)     (* DatetimeDeserializer (value.rs): key FIELD, value date.to_string() *)
   | VTab [(k, y)] =>
     if bytes_eqb k DT_FIELD
     then match y with
          | VStr s => de_dt_str s
-         | VDatetime d => de_dt_str (display_datetime d)
          | _ => Err EDe end
     else Err EDe
   | _ => Err EDe
@@ -317,8 +318,8 @@ Fixpoint tv_de (t : ty) (x : tomlval) {struct t} : result sval :=
               | _ => Err EDe end
   | TFloat F64 => match x with VFloat b => Ok (SF64 b) | VInt _ => Err EUnmodelled | _ => Err EDe end
   | TFloat F32 => match x with VFloat b => Ok (SF32 (narrow32 b)) | VInt _ => Err EUnmodelled | _ => Err EDe end
-  | TChar => match x with VStr s => de_char s | VDatetime d => de_char (display_datetime d) | _ => Err EDe end
-  | TStr => match x with VStr s => Ok (SStr s) | VDatetime d => Ok (SStr (display_datetime d)) | _ => Err EDe end
+  | TChar => match x with VStr s => de_char s | _ => Err EDe end
+  | TStr => match x with VStr s => Ok (SStr s) | _ => Err EDe end      (* a date-time is a map for the visitor, as in toml_edit *)
   | TDatetime k => rbind (tv_de_datetime x) (dt_kind_check k)
   | TUnit => Err EDe
   | TUnitStruct _ => Err EDe
@@ -330,12 +331,14 @@ Fixpoint tv_de (t : ty) (x : tomlval) {struct t} : result sval :=
     match x with
     | VTab es => rmap (fun ps => SMap (smap_of_pairs ps))
                       (mapM (fun kx => rbind (tv_de kt (VStr (fst kx))) (fun k => rmap (fun v => (k, v)) (tv_de vt (snd kx)))) es)
+    | VDatetime _ => Err EUnmodelled
     | _ => Err EDe
     end
   | TStruct n fs =>
     match x with
     | VTab es => rmap SRec (de_struct_map tv_de fs es)
     | VArr xs => rmap SRec (all_read (de_pos tv_de (fun ft => snd ft) fs xs))
+    | VDatetime _ => Err EUnmodelled
     | _ => Err EDe
     end
   | TNewtype _ t' => rmap SNewtype (tv_de t' x)
@@ -366,6 +369,7 @@ with tv_de_payload (var : variant) (y : tomlval) {struct var} : result sval :=  
     match y with
     | VTab es => rmap SRec (de_struct_map tv_de fs es)
     | VArr xs => rmap SRec (all_read (de_pos tv_de (fun ft => snd ft) fs xs))
+    | VDatetime _ => Err EUnmodelled
     | _ => Err EDe
     end
   end.
